@@ -20,6 +20,8 @@ impl CasManager {
 
     pub fn read_blob(&self, blob_hash: &BlobHash) -> Result<bytes::Bytes, CasManagerError> {
         let cas_path = self.paths.cas_file_path(blob_hash);
+        #[cfg(feature = "verif")]
+        crate::verif::point("cas.open_blob", crate::verif::WANT_NONE);
         let bytes = std::fs::read(&cas_path).map_err(|e| CasManagerError::FileOperation {
             operation: CasIoOperation::ReadContent,
             path: cas_path.clone(),
@@ -30,6 +32,8 @@ impl CasManager {
 
     pub fn blob_bufreader(&self, blob_hash: &BlobHash) -> Result<BufReader<File>, CasManagerError> {
         let cas_path = self.paths.cas_file_path(blob_hash);
+        #[cfg(feature = "verif")]
+        crate::verif::point("cas.open_blob", crate::verif::WANT_NONE);
         let file = File::open(&cas_path).map_err(|e| CasManagerError::FileOperation {
             operation: CasIoOperation::OpenBuffered,
             path: cas_path.clone(),
@@ -52,6 +56,8 @@ impl CasManager {
         }
 
         let cas_path = self.paths.cas_file_path(blob_hash);
+        #[cfg(feature = "verif")]
+        crate::verif::point("cas.open_blob", crate::verif::WANT_NONE);
         let file = File::open(&cas_path).map_err(|e| CasManagerError::FileOperation {
             operation: CasIoOperation::OpenRangeRead,
             path: cas_path.clone(),
@@ -121,6 +127,8 @@ impl CasManager {
                 source: e,
             })?;
         }
+        #[cfg(feature = "verif")]
+        crate::verif::point("cas.rename_blob", crate::verif::WANT_NONE);
         match std::fs::rename(staging_path, &final_cas_path) {
             Ok(()) => {
                 // On Unix the rename is atomic and will replace an existing file with the
@@ -157,6 +165,8 @@ impl CasManager {
     pub fn delete_blobs(&self, hashes: &[BlobHash]) -> Result<(), CasManagerError> {
         for hash in hashes {
             let file_path = self.paths.cas_file_path(hash);
+            #[cfg(feature = "verif")]
+            crate::verif::point("cas.unlink_blob", crate::verif::WANT_NONE);
             match std::fs::remove_file(&file_path) {
                 Ok(_) => {
                     tracing::debug!(
